@@ -357,6 +357,117 @@ func execC04a(ctx *Ctx, in *Input) *Result {
 	return res
 }
 
+// ---------------------------------------------------------------- C04 (b): expression level
+
+func genC04b(ctx *Ctx, i int) *Input {
+	r := rng.New(ctx.Seed, "C04b", i)
+	in := &Input{Index: i, Sub: r.Uint64(), Variants: wl.AllVariants}
+	for k := 0; k < 6; k++ {
+		in.Specs = append(in.Specs, wl.OperatorTable(r.Sub("ot", k)).Spec)
+	}
+	if r.Chance(1, 2) {
+		in.LayoutSeed = r.Uint64() | 1
+	}
+	if i%2 == 0 {
+		in.Scheds = []enga.Schedule{enga.Canonical()}
+	} else {
+		in.Scheds = []enga.Schedule{enga.Swarm(r.Uint64(), i/2, ctx.Sites)}
+	}
+	return in
+}
+
+func execC04b(ctx *Ctx, in *Input) *Result {
+	res := &Result{}
+	pb, ok := prepareBatch(ctx, res, in, wl.AllVariants, wl.EpiFull, feedSizes{})
+	defer pb.cleanup()
+	if !ok {
+		return res
+	}
+	r := rng.New(in.Sub, "exprs")
+	nExpr := 120
+	if ctx.Thorough() {
+		nExpr = 600
+	}
+	type expect struct {
+		ok     bool
+		val    string
+		errPos int
+	}
+	expects := make([][]expect, len(pb.Specs))
+	for si, sc := range pb.Specs {
+		if sc.Spec.OpTab == nil {
+			continue
+		}
+		pr := ref.NewPrecRef(sc.Spec)
+		seen := map[string]bool{}
+		for k := 0; k < nExpr; k++ {
+			toks := pr.RandomExpr(r.Sub(si, k), 1+r.Intn(5))
+			if len(toks) > 60 {
+				continue
+			}
+			f := feedInfo{Kind: "expression", Toks: toks, PanicAt: -1}
+			if seen[f.String()] {
+				continue
+			}
+			seen[f.String()] = true
+			s, ok, ep := pr.Parse(toks)
+			sc.Feeds = append(sc.Feeds, f)
+			expects[si] = append(expects[si], expect{ok, s, ep})
+		}
+	}
+	results, _, ok := pb.runParses(ctx, res, false)
+	if !ok {
+		return res
+	}
+	for si, sc := range pb.Specs {
+		for _, u := range sc.sortedUnits() {
+			if u.GenErr != "" || u.CompErr != "" {
+				res.Count("skipped_unit_unusable(C12/C16)", 1)
+				continue
+			}
+			prs := results[u.Name]
+			for fi := range sc.Feeds {
+				if fi >= len(prs) {
+					break
+				}
+				pr, ex := &prs[fi], expects[si][fi]
+				fail := func(class, f string, a ...any) *Result {
+					res.Viol = &Violation{Class: class, Key: class, Sub: si,
+						Msg: fmt.Sprintf("operator table [%s], variant %s, expression [%s]: ", sc.Spec.Short(), u.Variant, feedStr(sc.Spec, sc.Feeds[fi].Toks)) + fmt.Sprintf(f, a...)}
+					return res
+				}
+				res.Count("expressions_checked", 1)
+				if ex.ok {
+					if pr.Outcome != "accept" {
+						return fail("expression-rejected", "the declarations group it as %s, but the parser ended with %s %s", ex.val, pr.Outcome, pr.Msg)
+					}
+					got := fmt.Sprint(valueOf(pr.Value, u, sc.Spec))
+					if got != ex.val {
+						return fail("wrong-grouping", "the declarations group it as %s, the parser built %s", ex.val, got)
+					}
+					res.Count("groupings_compared", 1)
+				} else {
+					res.Count("probe_nonassoc_error_expected", 1)
+					if pr.Outcome != "syntax" {
+						return fail("nonassoc-not-an-error", "a %%nonassoc operator is chained at token #%d, which must be a syntax error; the parser ended with %s %v", ex.errPos, pr.Outcome, valueOf(pr.Value, u, sc.Spec))
+					}
+					if pr.Fetched != ex.errPos+1 {
+						return fail("nonassoc-error-position", "the syntax error must be reported at token #%d (after requesting %d tokens); the parser requested %d", ex.errPos, ex.errPos+1, pr.Fetched)
+					}
+				}
+			}
+		}
+		if len(sc.Feeds) > 0 {
+			res.Keys = append(res.Keys, hkey(sc.Spec.Short()))
+		}
+	}
+	if len(pb.Specs) > 0 && len(pb.Specs[0].Feeds) > 0 {
+		sc := pb.Specs[0]
+		res.Sample = map[string]any{"operator_table": sc.Spec.Short(), "expressions": len(sc.Feeds), "example": feedStr(sc.Spec, sc.Feeds[0].Toks), "reference_grouping": expects[0][0].val}
+	}
+	return res
+}
+
 func candStr(g *ref.Grammar, cs []ref.Cand) string {
 	var p []string
 	for _, c := range cs {
@@ -380,12 +491,29 @@ func init() {
 		Probes: []string{"successful_runs", "failed_runs", "fault_fired_dollar-range", "fault_fired_too-many-states", "fault_fired_lexical", "fault_fired_undefined"},
 		Assume: []string{"disk faults (ENOSPC, short writes) and kill -9 are outside the statement and not injected", "file-system effects of yaccgo go through os.Create/OpenFile/WriteFile/Remove/Rename/Truncate (all behind the seam); the final byte comparison also sees effects that bypass it"},
 	})
+	c04batches := func(ctx *Ctx) int { return fixedCases(ctx, 16, 400) }
 	Register(&Checker{
-		ID: "C04", Level: "exploration", Engine: "A",
-		Rule: "case = (grammar with precedence, K map-order schedules); operator tables (1-6 levels, random associativity, prefix operators via %prec), textbook conflict grammars, random CFGs with random %left/%right/%nonassoc and %prec. For every table cell with exactly two candidate actions (taken from the same run's transitions and lookaheads) the dense-table entry is compared with the documented resolution. distinct_nontrivial = distinct grammars.",
-		NumCases: func(ctx *Ctx) int { return fixedCases(ctx, 6000, 60000) },
-		Gen:      genC04, Exec: execC04a,
-		Probes: []string{"probe_sr_by_level", "probe_sr_equal_level_assoc0", "probe_sr_equal_level_assoc1", "probe_sr_equal_level_assoc2", "probe_sr_default_shift", "probe_rr_cell"},
-		Assume: []string{"rule precedence = %prec symbol, else the last right-hand-side terminal; grammars where an earlier terminal has precedence and the last one has none are excluded (yacc and yaccgo differ, the statement does not pin it)", "multi-way cells (>= 3 candidates) and reduce/reduce between two rules that both carry precedence are not judged beyond 'the entry is one of the candidates or error'"},
+		ID: "C04", Level: "exploration", Engine: "A+B",
+		Rule: "two kinds of cases. (a) cell level: (grammar with precedence, K map-order schedules); operator tables (1-6 levels, random associativity, prefix operators via %prec), textbook conflict grammars, random CFGs with random %left/%right/%nonassoc and %prec; for every table cell with exactly two candidate actions (taken from the same run's transitions and lookaheads) the dense-table entry is compared with the documented resolution. (b) expression level: batches of 6 operator tables compiled in all 5 variants; random expressions (depth <= 5) are parsed and the returned fully parenthesised string / the syntax error and its position are compared with a precedence-climbing reference that only knows the declarations. distinct_nontrivial = distinct grammars.",
+		NumCases: func(ctx *Ctx) int { return c04batches(ctx) + fixedCases(ctx, 6000, 60000) },
+		Gen: func(ctx *Ctx, i int) *Input {
+			if nb := c04batches(ctx); i < nb {
+				return genC04b(ctx, i)
+			} else {
+				in := genC04(ctx, i-nb)
+				in.Index = i
+				return in
+			}
+		},
+		Exec: func(ctx *Ctx, in *Input) *Result {
+			if len(in.Specs) > 0 {
+				return execC04b(ctx, in)
+			}
+			return execC04a(ctx, in)
+		},
+		Probes: []string{"probe_sr_by_level", "probe_sr_equal_level_assoc0", "probe_sr_equal_level_assoc1", "probe_sr_equal_level_assoc2", "probe_sr_default_shift", "probe_rr_cell", "groupings_compared", "probe_nonassoc_error_expected"},
+		Assume: []string{"rule precedence = %prec symbol, else the last right-hand-side terminal; grammars where an earlier terminal has precedence and the last one has none are excluded (yacc and yaccgo differ, the statement does not pin it)", "multi-way cells (>= 3 candidates) and reduce/reduce between two rules that both carry precedence are not judged beyond 'the entry is one of the candidates or error'", "the precedence-climbing reference implements the yacc rules for binary, prefix (%prec) and parenthesised expressions"},
+		Real:   []string{"yaccgo generator (instrumented copy)", "go build / node", "generated parsers of all five variants"},
+		Stubs:  []string{"map-iteration order shim", "token source", "TypeScript type eraser"},
 	})
 }
